@@ -408,7 +408,11 @@ func sendPing6(r *stack.Route, ident uint16, data buffer.View) *tcpip.Error {
 	}
 
 	icmpv6.SetChecksum(0)
-	icmpv6.SetChecksum(^header.Checksum(icmpv6, header.Checksum(data, 0)))
+	// ICMPv6 checksums cover the IPv6 pseudo-header (RFC 4443, section 2.3).
+	length := uint16(len(icmpv6) + len(data))
+	xsum := header.PseudoHeaderChecksum(header.ICMPv6ProtocolNumber, r.LocalAddress, r.RemoteAddress)
+	xsum = header.Checksum([]byte{byte(length >> 8), byte(length)}, xsum)
+	icmpv6.SetChecksum(^header.Checksum(icmpv6, header.Checksum(data, xsum)))
 
 	return r.WritePacket(hdr, data.ToVectorisedView(), header.ICMPv6ProtocolNumber, r.DefaultTTL())
 }
